@@ -529,6 +529,21 @@ def to_custom_lexer(g, rnd):
     return g
 
 
+def pad_terms(g, total):
+    """the same grammar with unused char terms added until it declares `total` terms: the bit sets over terms have total + 2 bits
+    (<eof> and the error token come last), so totals of 62, 63, 126, 127 put those two at machine-word boundaries"""
+    g = clone(g)
+    used = {t.text for t in g.terms}
+    pool = [c for c in list(WIDE_CHARS) + list('!#$%&*+,-/:;<=>?@^_`|~') if c not in used and c not in g.nts and all(c != u[0] for u in used)]
+    for c in pool:
+        if len(g.terms) >= total: break
+        g.terms.append(Term('c', c))
+    for c in 'abcdefghijklmnopqrstuvwxyzABCDEFGHIJKLMNOPQRSTUVWXYZ0123456789':      # more than the printable characters: two-character string terms
+        if len(g.terms) >= total: break
+        if ('Q_' + c) not in used: g.terms.append(Term('s', 'Q_' + c))
+    g.note += '+padded%d' % total
+    return g if len(g.terms) == total else None
+
 def long_names(g, rnd):
     """names (nonterminals, custom and regex terms) of 30..300 characters that agree in a long common prefix: symbols are bound by their
     names/ids, so any bounded or prefix comparison of names merges two symbols"""
